@@ -22,7 +22,7 @@ Proof.
   apply Rplus_le_compat; [|exact Ht]. rewrite Rmult_comm. apply Rmult_le_compat_r; [apply Rabs_pos | exact He].
 Qed.
 
-Inductive ex := V (i : nat) | One | Add (a b : ex) | Sub (a b : ex) | Mul (a b : ex).
+Inductive ex := V (i : nat) | One | Add (a b : ex) | Sub (a b : ex) | Mul (a b : ex) | Min (a b : ex) | Max (a b : ex).
 
 Fixpoint evalF (env : nat -> f32) (e : ex) : f32 :=
   match e with
@@ -30,6 +30,8 @@ Fixpoint evalF (env : nat -> f32) (e : ex) : f32 :=
   | Add a b => F32.add (evalF env a) (evalF env b)
   | Sub a b => F32.sub (evalF env a) (evalF env b)
   | Mul a b => F32.mul (evalF env a) (evalF env b)
+  | Min a b => wide_min (evalF env a) (evalF env b)
+  | Max a b => wide_max (evalF env a) (evalF env b)
   end.
 Fixpoint evalR (env : nat -> R) (e : ex) : R :=
   match e with
@@ -37,18 +39,22 @@ Fixpoint evalR (env : nat -> R) (e : ex) : R :=
   | Add a b => evalR env a + evalR env b
   | Sub a b => evalR env a - evalR env b
   | Mul a b => evalR env a * evalR env b
+  | Min a b => Rmin (evalR env a) (evalR env b)
+  | Max a b => Rmax (evalR env a) (evalR env b)
   end.
 (* magnitude bound of the exact value, and error bound of the binary32 value *)
 Fixpoint mag (e : ex) : R :=
   match e with
   | V _ => 1 | One => 1
   | Add a b => mag a + mag b | Sub a b => mag a + mag b | Mul a b => mag a * mag b
+  | Min a b | Max a b => mag a + mag b
   end.
 Fixpoint err (e : ex) : R :=
   match e with
   | V _ => 0 | One => 0
   | Add a b | Sub a b => let x := err a + err b in x + (u * (mag a + mag b + x) + eta0)
   | Mul a b => let x := (mag a + err a) * err b + mag b * err a in x + (u * (mag a * mag b + x) + eta0)
+  | Min a b | Max a b => err a + err b
   end.
 
 Lemma mag_pos e : 1 <= mag e.
@@ -76,6 +82,7 @@ Fixpoint ok (e : ex) : Prop :=
   match e with
   | V _ | One => True
   | Add a b | Sub a b | Mul a b => ok a /\ ok b /\ mag e + err e <= bpow radix2 100
+  | Min a b | Max a b => ok a /\ ok b
   end.
 
 Lemma lt_emax_of_le100 x : Rabs x <= bpow radix2 100 -> Rabs (rnd32 x) < bpow radix2 128.
@@ -89,7 +96,7 @@ Theorem eval_error env e : env_ok env -> ok e ->
 Proof.
   intros He. assert (U : 0 <= u) by (unfold u; pose proof (bpow_gt_0 radix2 (-24 + 1)); lra).
   assert (E0 : 0 <= eta0) by (unfold eta0; pose proof (bpow_gt_0 radix2 (-149)); lra).
-  induction e as [i | | a IHa b IHb | a IHa b IHb | a IHa b IHb]; intros Hok; cbn [evalF evalR mag err ok] in *; cbv zeta in *.
+  induction e as [i | | a IHa b IHb | a IHa b IHb | a IHa b IHb | a IHa b IHb | a IHa b IHb]; intros Hok; cbn [evalF evalR mag err ok] in *; cbv zeta in *.
   - destruct (He i) as (F & B). split; [exact F|]. split; [|apply Rabs_le; lra].
     replace (R32 (env i) - R32 (env i)) with 0 by ring. rewrite Rabs_R0. lra.
   - split; [reflexivity|]. rewrite R_one. split; [replace (1 - 1) with 0 by ring; rewrite Rabs_R0; lra | rewrite Rabs_R1; lra].
@@ -144,6 +151,20 @@ Proof.
     + replace (rnd32 (R32 fa * R32 fb) - ra * rb) with ((rnd32 (R32 fa * R32 fb) - R32 fa * R32 fb) + (R32 fa * R32 fb - ra * rb)) by ring.
       eapply Rle_trans; [apply Rabs_triang|]. pose proof (rnd_err (R32 fa * R32 fb)). nra.
     + exact Mab.
+  - destruct Hok as (Oa & Ob). destruct (IHa Oa) as (Fa & Ea & Ma). destruct (IHb Ob) as (Fb & Eb & Mb).
+    set (fa := evalF env a) in *. set (fb := evalF env b) in *. set (ra := evalR _ a) in *. set (rb := evalR _ b) in *.
+    pose proof (err_pos a) as Pa. pose proof (err_pos b) as Pb. pose proof (mag_pos a). pose proof (mag_pos b).
+    apply Rabs_le_inv in Ea. apply Rabs_le_inv in Eb. apply Rabs_le_inv in Ma. apply Rabs_le_inv in Mb.
+    unfold wide_min, F32.lt. rewrite (Bltb_correct _ _ fa fb Fa Fb).
+    destruct (Rlt_bool_spec (R32 fa) (R32 fb)) as [L | L]; (split; [assumption|]); split; apply Rabs_le;
+      unfold Rmin; destruct (Rle_dec ra rb); lra.
+  - destruct Hok as (Oa & Ob). destruct (IHa Oa) as (Fa & Ea & Ma). destruct (IHb Ob) as (Fb & Eb & Mb).
+    set (fa := evalF env a) in *. set (fb := evalF env b) in *. set (ra := evalR _ a) in *. set (rb := evalR _ b) in *.
+    pose proof (err_pos a) as Pa. pose proof (err_pos b) as Pb. pose proof (mag_pos a). pose proof (mag_pos b).
+    apply Rabs_le_inv in Ea. apply Rabs_le_inv in Eb. apply Rabs_le_inv in Ma. apply Rabs_le_inv in Mb.
+    unfold wide_max, F32.gt, F32.lt. rewrite (Bltb_correct _ _ fb fa Fb Fa).
+    destruct (Rlt_bool_spec (R32 fb) (R32 fa)) as [L | L]; (split; [assumption|]); split; apply Rabs_le;
+      unfold Rmax; destruct (Rle_dec ra rb); lra.
 Qed.
 
 (* ---- the polynomial blend formulas ---------------------------------------------------------------------------------------------- *)
@@ -162,6 +183,10 @@ Definition e_modulate := Mul vs vd.
 Definition e_screen := Sub (Add vs vd) (Mul vs vd).
 Definition e_multiply := Add (Add (Mul vs (inv_e vda)) (Mul vd (inv_e vsa))) (Mul vs vd).
 Definition e_exclusion := Sub (Add vs vd) (Add (Mul vs vd) (Mul vs vd)).
+Definition e_plus := Min (Add vs vd) One.
+Definition e_darken := Sub (Add vs vd) (Max (Mul vs vda) (Mul vd vsa)).
+Definition e_lighten := Sub (Add vs vd) (Min (Mul vs vda) (Mul vd vsa)).
+Definition e_difference := Sub (Add vs vd) (Add (Min (Mul vs vda) (Mul vd vsa)) (Min (Mul vs vda) (Mul vd vsa))).
 
 Definition env4 (s d sa da : f32) : nat -> f32 := fun i => match i with O => s | 1%nat => d | 2%nat => sa | _ => da end.
 
@@ -179,7 +204,11 @@ Lemma reify_ok s d sa da :
   evalF (env4 s d sa da) e_modulate = highp_modulate s d sa da /\
   evalF (env4 s d sa da) e_screen = highp_screen s d sa da /\
   evalF (env4 s d sa da) e_multiply = highp_multiply s d sa da /\
-  evalF (env4 s d sa da) e_exclusion = highp_exclusion s d sa da.
+  evalF (env4 s d sa da) e_exclusion = highp_exclusion s d sa da /\
+  evalF (env4 s d sa da) e_plus = highp_plus s d sa da /\
+  evalF (env4 s d sa da) e_darken = highp_darken s d sa da /\
+  evalF (env4 s d sa da) e_lighten = highp_lighten s d sa da /\
+  evalF (env4 s d sa da) e_difference = highp_difference s d sa da.
 Proof. repeat split; reflexivity. Qed.
 
 Lemma u_val : u = / 16777216.
@@ -194,11 +223,12 @@ Proof. change (bpow radix2 100) with (IZR (Z.pow_pos 2 100)). reflexivity. Qed.
 
 (* numeric bounds: every intermediate value is tiny compared with the overflow threshold and the final error is below 2^-19 *)
 Ltac bound_tac := cbn [ok mag err e_source_over e_destination_over e_source_in e_destination_in e_source_out e_destination_out
-                         e_source_atop e_destination_atop e_xor e_modulate e_screen e_multiply e_exclusion inv_e vs vd vsa vda];
+                         e_source_atop e_destination_atop e_xor e_modulate e_screen e_multiply e_exclusion e_plus e_darken e_lighten e_difference inv_e vs vd vsa vda];
                   cbv zeta; rewrite ?pow100, u_val, eta0_val; repeat split; try exact I; try lra.
 
 Definition all_e : list ex := [e_source_over; e_destination_over; e_source_in; e_destination_in; e_source_out; e_destination_out;
-                               e_source_atop; e_destination_atop; e_xor; e_modulate; e_screen; e_multiply; e_exclusion].
+                               e_source_atop; e_destination_atop; e_xor; e_modulate; e_screen; e_multiply; e_exclusion;
+                               e_plus; e_darken; e_lighten; e_difference].
 
 Lemma all_ok : Forall (fun e => ok e /\ err e <= / 524288) all_e.
 Proof. unfold all_e. repeat (apply Forall_cons; [bound_tac|]). apply Forall_nil. Qed.
@@ -233,6 +263,10 @@ Definition P_modulate (s d sa da : R) := s * d.
 Definition P_screen (s d sa da : R) := s + d - s * d.
 Definition P_multiply (s d sa da : R) := s * (1 - da) + d * (1 - sa) + s * d.
 Definition P_exclusion (s d sa da : R) := s + d - 2 * (s * d).
+Definition P_plus (s d sa da : R) := Rmin (s + d) 1.
+Definition P_darken (s d sa da : R) := s + d - Rmax (s * da) (d * sa).
+Definition P_lighten (s d sa da : R) := s + d - Rmin (s * da) (d * sa).
+Definition P_difference (s d sa da : R) := s + d - 2 * Rmin (s * da) (d * sa).
 
 Definition close (f : f32 -> f32 -> f32 -> f32 -> f32) (g : R -> R -> R -> R -> R) : Prop :=
   forall s d sa da, fin s -> fin d -> fin sa -> fin da ->
@@ -249,8 +283,8 @@ Qed.
 
 Ltac close_tac e := apply (close_of e); [unfold all_e; cbn [In]; tauto | intros; reflexivity |
   intros; cbn [evalR env4 e_source_over e_destination_over e_source_in e_destination_in e_source_out e_destination_out
-               e_source_atop e_destination_atop e_xor e_modulate e_screen e_multiply e_exclusion inv_e vs vd vsa vda];
-  unfold P_source_over, P_destination_over, P_source_in, P_destination_in, P_source_out, P_destination_out, P_source_atop,
+               e_source_atop e_destination_atop e_xor e_modulate e_screen e_multiply e_exclusion e_plus e_darken e_lighten e_difference inv_e vs vd vsa vda];
+  unfold P_plus, P_darken, P_lighten, P_difference, P_source_over, P_destination_over, P_source_in, P_destination_in, P_source_out, P_destination_out, P_source_atop,
          P_destination_atop, P_xor, P_modulate, P_screen, P_multiply, P_exclusion; ring].
 
 Lemma close_source_over : close highp_source_over P_source_over.
@@ -279,6 +313,14 @@ Lemma close_multiply : close highp_multiply P_multiply.
 Proof. close_tac e_multiply. Qed.
 Lemma close_exclusion : close highp_exclusion P_exclusion.
 Proof. close_tac e_exclusion. Qed.
+Lemma close_plus : close highp_plus P_plus.
+Proof. close_tac e_plus. Qed.
+Lemma close_darken : close highp_darken P_darken.
+Proof. close_tac e_darken. Qed.
+Lemma close_lighten : close highp_lighten P_lighten.
+Proof. close_tac e_lighten. Qed.
+Lemma close_difference : close highp_difference P_difference.
+Proof. close_tac e_difference. Qed.
 
 Theorem highp_polynomial_modes_close :
   close highp_source_over P_source_over /\
@@ -293,7 +335,11 @@ Theorem highp_polynomial_modes_close :
   close highp_modulate P_modulate /\
   close highp_screen P_screen /\
   close highp_multiply P_multiply /\
-  close highp_exclusion P_exclusion.
+  close highp_exclusion P_exclusion /\
+  close highp_plus P_plus /\
+  close highp_darken P_darken /\
+  close highp_lighten P_lighten /\
+  close highp_difference P_difference.
 Proof.
-  split; [exact close_source_over|]. split; [exact close_destination_over|]. split; [exact close_source_in|]. split; [exact close_destination_in|]. split; [exact close_source_out|]. split; [exact close_destination_out|]. split; [exact close_source_atop|]. split; [exact close_destination_atop|]. split; [exact close_xor|]. split; [exact close_modulate|]. split; [exact close_screen|]. split; [exact close_multiply|]. exact close_exclusion.
+  split; [exact close_source_over|]. split; [exact close_destination_over|]. split; [exact close_source_in|]. split; [exact close_destination_in|]. split; [exact close_source_out|]. split; [exact close_destination_out|]. split; [exact close_source_atop|]. split; [exact close_destination_atop|]. split; [exact close_xor|]. split; [exact close_modulate|]. split; [exact close_screen|]. split; [exact close_multiply|]. split; [exact close_exclusion|]. split; [exact close_plus|]. split; [exact close_darken|]. split; [exact close_lighten|]. exact close_difference.
 Qed.
